@@ -3,7 +3,7 @@
 import json, subprocess
 
 HOOK_COMMITS = ["e053b92", "db39081", "909497b", "a3ef4cc"]
-FIX_COMMITS = ["d1834d6", "696a10e", "54f6b98", "8cadbec", "1d570ec", "ada398b", "3cdf850", "86f4ed9", "cac2ae1", "749f9e1", "6852bbb", "79a1448", "10810c0", "76552f0", "f89c303", "e2f472c", "6328c42"]
+FIX_COMMITS = ["d1834d6", "696a10e", "54f6b98", "8cadbec", "1d570ec", "ada398b", "3cdf850", "86f4ed9", "cac2ae1", "749f9e1", "6852bbb", "79a1448", "10810c0", "76552f0", "f89c303", "e2f472c", "6328c42", "4d43097", "8176551", "dcae5d6"]
 
 NOTE_COMMON = ("trusted base: tokio current-thread scheduler + paused clock, the simnet link, the refproto reference codec/model; "
                "interleavings explored at task-poll granularity on one thread; a clean batch is evidence, not proof")
@@ -15,6 +15,8 @@ CHECKS = {
             "deterministic simulation; wire-trace invariant monitor (credit ledger, chunk size)"),
     "C04": ("exploration", "§4 C04", "base channels between two real endpoints; items straddling max_data_size (streamed through lock-step helper threads), chunk_size and max_item_size, items failing to (de)serialize, cancelled sends, link cut sub-batch; oracle = receive events must be explainable by the per-sender attempt log (deliver / receiver-must-fail / sender-failed), complete at quiescence",
             "deterministic simulation + fault injection; sequence-matching oracle against the sender's attempt log"),
+    "C05": ("exploration", "§4 C05", "2-4 endpoints, 0-8 channels whose halves (mpsc, oneshot, watch, broadcast, bin, lr) are tagged with their channel label, embedded in nested values (Vec/Option/Pair/Map/Enum, padded past max_data_size) and sent 1-3 hops over base, mpsc and forwarded-bin carriers, also while items are queued; scarce max_ports and link-cut sub-batches; oracle = every sink sees only its own channel's values in order (bijection), with ample ports nothing is refused or lost, both ends observe an error for a half that could not be connected, nobody pending at quiescence, second lr half refused",
+            "deterministic simulation + fault injection; label-bijection oracle over all delivered halves"),
     "C06": ("fault_enumeration", "§4 C06", "two fixed mixed chmux workloads (handshake, port opens, chunked transfers both ways, port batch, pending connect/accept/closed()/recv, idle tail with pings); every frame index x direction x fault kind (sink error, stream error, EOF, silent stall both ways, one-directional stall) is executed under N seeded schedules; oracle = both dispatchers end with Err by timeout+eps, every outstanding and fresh operation errors in bounded virtual time, no orderly end-of-stream is reported, received is a prefix of sent; points beyond the traffic exercise the idle-survival clause (hours of virtual idle time, then a transfer)",
             "deterministic simulation; exhaustive enumeration of transport cut points x fault kinds, seeded schedules per point"),
     "C10": ("exploration", "§4 C10", "1-3 client actors issue default connect(), connect_ext(wait/no-wait, PortReq ids), cancelled connects and Connect::sent()+marker message; a listener actor draws accept / inspect+accept / accept_from / reject / reject(no_ports) / drop per request, with cancelled accepts; max_ports 2-8, connect_queue 1-4, every Cfg::ports_exhausted policy; oracle = no request pending at quiescence, client outcome equals the listener's recorded decision per request id, accepted pairs echo their own label on both legs, a request reported as sent is obtainable from the listener before later data arrives, unanswered OpenPort frames never exceed the advertised connect queue (wire monitor), exhaustion policy clause",
@@ -31,6 +33,12 @@ CHECKS = {
             "deterministic simulation + fault injection; monotonicity and convergence-at-quiescence oracle"),
     "C16": ("exploration", "§4 C16", "one broadcast sender, 1-4 subscribers local / 1-2 hops away with send_buffer 1-3 and RECEIVE_BUFFER 1-2, lock-step/eager/slow/stalled readers, joins and leaves, one subscriber behind a cut link; oracle = Ok values increasing, Lagged between Ok(a), Ok(b) iff b != a+1, lock-step and roomy subscribers see everything, send synchronous and unaffected by failed subscribers",
             "deterministic simulation + fault injection; per-subscriber sequence oracle (lag marker iff gap)"),
+    "C17": ("exploration", "§4 C17", "Owner on A, RwLock/ReadLock clones on A, B, C (directly, via B, after a round trip), cold and warm shared caches, 1-5 tasks with <= 12 read/write/commit/drop operations, guards held across other requests; holder-cut sub-batch; oracle = write-guard intervals never overlap read or write guard intervals, register linearizability search (committed write = read-modify-write, dropped write guard = read), nothing pending at quiescence once all guards are released",
+            "deterministic simulation + fault injection; interval-exclusion and register-linearizability oracle"),
+    "C18": ("exploration", "§4 C18", "sized and unsized rch::io channels on 2-3 endpoints, halves local/remote/both remote over 1-2 hops and handed over mid-stream, streams of 0..8 x chunk_size bytes in up to 20 write/flush ops, endings shutdown / drop without shutdown / over-long write / early reader drop / link cut, calls after an error, halves carried inside streamed values; oracle = bytes read are a prefix of bytes accepted at every read, Ok(0) only when the total equals the fixed or announced size, over-long writes refused, short streams end in an error, counters consistent, nobody pending at quiescence",
+            "deterministic simulation + fault injection; byte-stream reference oracle"),
+    "C20": ("exploration", "§4 C20", "drop-counted values behind Handle<T> cloned, cast, sent A-B-A / A-B-C-A over 1-3 links, into_inner/as_ref/as_mut on every endpoint, providers kept or dropped, clones dropped in drawn order; Lazy<T> and LazyBlob with sizes around chunk/buffer sizes fetched on any endpoint after 0-2 forwards, link cut during the fetch; oracle = access succeeds only at the origin at the original type and never yields another value, drop counter reaches 1 exactly when the last handle/provider is gone and not before, fetched == provided or an error",
+            "deterministic simulation + fault injection; ownership/drop-count reference oracle"),
     "C19": ("exploration", "§4 C19", "rtc servers with cancellable and #[no_cancel] gated methods; call futures dropped after 0-12 polls or a virtual delay, callers losing or stalling their link, undecodable arguments, methods unknown to the server, oversize replies, concurrent well-behaved clients; oracle = abandoned cancellable executions never pass their gate, no_cancel executions complete, the lock is released (fresh &mut call served), every unrelated call succeeds, serve() keeps running and ends Ok (or with the deferred reply error) when clients are gone",
             "deterministic simulation + fault injection (cancellation at drawn polls, link cut/stall); execution-log oracle"),
     "C03": ("exploration", "§4 C03", "same runs as C01 plus stalled-receiver runs; oracle = no send/connect pending at quiescence while the receiver consumed everything, credit-conservation probe, zero-cost frame flood detector",
